@@ -40,10 +40,10 @@ pub fn lit_matrix(k: &str, r: usize, c: usize, rng: &mut Rng) -> String {
 
 macro_rules! push { ($s:expr, $($arg:tt)*) => {{ let s__ = format!($($arg)*); $s.push(s__); }} }
 
-pub struct Gen<'a> { pub rng: &'a mut Rng, pub vars: Vec<Var>, pub prog: Prog, counter: usize, pub clean: bool }
+pub struct Gen<'a> { pub rng: &'a mut Rng, pub vars: Vec<Var>, pub prog: Prog, counter: usize, pub clean: bool, pub rowonly: bool }
 
 impl<'a> Gen<'a> {
-  pub fn new(rng: &'a mut Rng) -> Gen<'a> { Gen { rng, vars: vec![], prog: Prog { stmts: vec![], tags: BTreeSet::new(), restricted: true, mutates: false }, counter: 0, clean: false } }
+  pub fn new(rng: &'a mut Rng) -> Gen<'a> { Gen { rng, vars: vec![], prog: Prog { stmts: vec![], tags: BTreeSet::new(), restricted: true, mutates: false }, counter: 0, clean: false, rowonly: false } }
   fn fresh(&mut self) -> String { self.counter += 1; format!("v{}", self.counter) }
   fn tag(&mut self, t: &str) { self.prog.tags.insert(t.to_string()); }
   fn push(&mut self, s: String) { self.prog.stmts.push(s); }
@@ -62,6 +62,8 @@ impl<'a> Gen<'a> {
     self.tag(&format!("lit-{}", k)); self.vars.push(Var { name: n, ty: Ty::S(k), mutable: m });
   }
   pub fn define_matrix_literal(&mut self, k: &'static str, r: usize, c: usize) {
+    // rowonly: literals the text formatter is known to round-trip (single-row matrices)
+    let (r, c) = if self.rowonly { (1, (r * c).min(4)) } else { (r, c) };
     let n = self.fresh(); let m = self.rng.chance(1, 2);
     let l = lit_matrix(k, r, c, self.rng);
     push!(self, "{}{} := {}", if m { "~" } else { "" }, n, l);
@@ -103,7 +105,8 @@ impl<'a> Gen<'a> {
   }
   pub fn range(&mut self) {
     let n = self.fresh(); let a = 1 + self.rng.below(3); let b = a + 1 + self.rng.below(5);
-    let form = self.rng.below(4);
+    let mut form = self.rng.below(4);
+    if self.rowonly && form == 2 { form = 0; }
     let (src, len) = match form { 0 => (format!("{}..={}", a, b), (b - a + 1) as usize), 1 => (format!("{}..{}", a, b), (b - a) as usize), 2 => (format!("{}..2..={}", a, b), ((b - a) / 2 + 1) as usize), _ => (format!("{}u8..={}u8", a, b), (b - a + 1) as usize) };
     push!(self, "{} := {}", n, src); self.tag(&format!("range-{}", form));
     self.vars.push(Var { name: n, ty: Ty::M(if form == 3 { "u8" } else { "f64" }, 1, len), mutable: false });
@@ -160,7 +163,8 @@ impl<'a> Gen<'a> {
   /// constructs outside the restricted class (bytecode may refuse them, but must not lie)
   pub fn general(&mut self) {
     let n = self.fresh();
-    let pick = self.rng.below(16);
+    let mut pick = self.rng.below(16);
+    if self.rowonly && (pick == 3 || pick == 14) { pick = 0; }
     let fs = self.vars_of(|v| v.ty == Ty::S("f64"));
     let fm = self.vars_of(|v| matches!(v.ty, Ty::M("f64", _, _)));
     let x = if !fs.is_empty() { self.rng.pick(&fs).name.clone() } else { lit_scalar("f64", self.rng) };
@@ -212,9 +216,11 @@ impl<'a> Gen<'a> {
 
 /// a random program of n statements
 pub fn random_program(rng: &mut Rng, n: usize, allow_general: bool, allow_mutation: bool) -> Prog { random_program_mode(rng, n, allow_general, allow_mutation, false) }
-pub fn random_program_mode(rng: &mut Rng, n: usize, allow_general: bool, allow_mutation: bool, clean: bool) -> Prog {
+pub fn random_program_mode(rng: &mut Rng, n: usize, allow_general: bool, allow_mutation: bool, clean: bool) -> Prog { random_program_modes(rng, n, allow_general, allow_mutation, clean, false) }
+pub fn random_program_modes(rng: &mut Rng, n: usize, allow_general: bool, allow_mutation: bool, clean: bool, rowonly: bool) -> Prog {
   let mut g = Gen::new(rng);
   g.clean = clean;
+  g.rowonly = rowonly;
   // seed with a few definitions so operators have operands
   g.define_scalar_literal("f64");
   g.define_matrix_literal("f64", 2, 3);
